@@ -145,6 +145,21 @@ func report(t fataler, f *Failure) {
 	if f == nil {
 		return
 	}
+	if p := os.Getenv("VERIF_SURVEY"); p != "" {
+		// development aid: collect failures instead of stopping at the first
+		surveyMu.Lock()
+		key := f.Check + "|" + f.Sig + "|" + surveyKey(f.Detail)
+		if surveySeen[key] < 3 {
+			fh, err := os.OpenFile(p, os.O_APPEND|os.O_CREATE|os.O_WRONLY, 0o644)
+			if err == nil {
+				fmt.Fprintf(fh, "---- %s sig=%s\n%s\ncase: %s\n", f.Check, f.Sig, f.Detail, string(f.Case))
+				fh.Close()
+			}
+		}
+		surveySeen[key]++
+		surveyMu.Unlock()
+		return
+	}
 	if p := failFile(); p != "" {
 		data, _ := json.MarshalIndent(f, "", " ")
 		_ = os.WriteFile(p, data, 0o644)
@@ -345,4 +360,23 @@ func pick[T any](t *rapid.T, label string, xs ...T) T {
 
 func chance(t *rapid.T, label string, percent int) bool {
 	return rapid.IntRange(0, 99).Draw(t, label) < percent
+}
+
+var (
+	surveyMu   sync.Mutex
+	surveySeen = map[string]int{}
+)
+
+// surveyKey groups failures for the development survey: the last line of the
+// detail with digits and quoted text removed.
+func surveyKey(detail string) string {
+	lines := strings.Split(strings.TrimSpace(detail), "\n")
+	last := lines[len(lines)-1]
+	if i := strings.Index(last, "("); i > 0 && strings.HasSuffix(last, ")") {
+		last = last[i:]
+	}
+	if len(last) > 80 {
+		last = last[len(last)-80:]
+	}
+	return last
 }
